@@ -116,6 +116,10 @@ def tmpl(name, args):
         return ("cmp", "eq", X, ("lit", 3))
     if name == "floor":
         return ("bi", "floor", ("bin", "truediv", X, ("lit", 4)), ())
+    if name == "pair1":  # an item of a call RESULT: f.pair(X)[1]  (the owner of the item ref is a computed expression)
+        return ("ix", ("call", "pair", (X,), ()), 1)
+    if name == "cplx":   # an attribute of an operator result: (X * 1j).imag
+        return ("at", ("bin", "mul", X, ("lit", 1j)), "imag")
     if name == "abs2":   # a builtin node as the FIRST operand of an enclosing operator
         return ("bin", "mul", ("bi", "abs", X, ()), ("lit", 2))
     if name == "addr":   # right-nested chain of one operator: X + (Y + 0.3)  (floating-point addition is not associative)
@@ -127,7 +131,7 @@ def tmpl(name, args):
     raise ValueError(name)
 
 
-UNARY = ("mul2", "inc", "neg", "dbl", "pick", "abs", "round1", "lt", "eqx", "floor", "rpow", "abs2")
+UNARY = ("mul2", "inc", "neg", "dbl", "pick", "abs", "round1", "lt", "eqx", "floor", "rpow", "abs2", "pair1", "cplx")
 BINARY_SYM = ("add", "mul")
 BINARY_ASYM = ("sub", "addr", "mulr")
 
